@@ -16,7 +16,7 @@ ASSUMPTIONS = [
     'double_sha256 is an uninterpreted collision-free function (commitment = preimage inequality)',
     'keys of one input are pairwise distinct (a key listed twice is outside the claim); Input/Transaction objects are built with __new__ (see C01)',
 ]
-BOUNDS = {'quick': 'counting: n <= 3 keys, <= 3 signatures, m in 1..n, every validity matrix; placement: n <= 3 keys, m in 1..n, every sequence of <= 3 sign() calls with any listed key or none, re-signing included; commitment: the C01 transaction shapes (1..2 inputs, 1 output (thorough 1..2), 7 input kinds, second input of the other witness family), one tampered field chosen by the solver among version, locktime, any outpoint txid / index, any sequence, any output value / script, the signed segwit input amount',
+BOUNDS = {'quick': 'threshold: 3-key multisig inputs of the three multisig kinds with 1..3 of the keys known, every m; placement with dictionary hand-offs between calls (signatures lose their key, importer verifies once); counting: n <= 3 keys, <= 3 signatures, m in 1..n, every validity matrix; placement: n <= 3 keys, m in 1..n, every sequence of <= 3 sign() calls with any listed key or none, re-signing included; commitment: the C01 transaction shapes (1..2 inputs, 1 output (thorough 1..2), 7 input kinds, second input of the other witness family), one tampered field chosen by the solver among version, locktime, any outpoint txid / index, any sequence, any output value / script, the signed segwit input amount',
           'thorough': 'counting n <= 4 with <= 4 signatures; placement 4 calls'}
 OUTSIDE = 'that fastecdsa verify is ECDSA (C13); taproot; inputs the library marks unknown; duplicate keys inside one input'
 
@@ -119,7 +119,8 @@ def h_counting(ex, maxn):
 class FKey:
     def __init__(self, i, priv):
         self.i, self.is_private = i, priv
-        self.public_byte = bytes([2, i])
+        self.public_byte = self.public_compressed_byte = bytes([2, i])
+        self.public_uncompressed_byte = bytes([4, i, i])
         self.public_hex = self.public_byte.hex()
         self.private_byte = bytes([9, i]) if priv else None
         self.compressed = True
@@ -367,6 +368,18 @@ def h_resign_scripts(ex, kind):
                  'resigned-witness-carries-current-signature')
 
 
+def h_threshold_from_redeemscript(ex, kind):
+    """a multisig input described by its redeem script while only some of the cosigner keys are known to this party
+    (what sign() sees after adopting its own key): update_scripts keeps the threshold m written in the redeem script"""
+    T, E, S, K = c01._mods()
+    inp, _, _, _ = c01.mk_input(ex, T, K, 0, kind, 3)
+    m = inp.sigs_required
+    known = ex.choose('keys_known_to_this_party', [1, 2, 3])
+    inp.keys = inp.keys[:known]
+    inp.update_scripts()
+    ex.check(inp.sigs_required == m, 'threshold-is-the-one-in-the-redeemscript')
+
+
 def jobs(tier):
     q = tier == 'quick'
     J = [Job('counting', h_counting, W=40, setup=setup, params=dict(maxn=3 if q else 4), budget_s=3000),
@@ -375,6 +388,8 @@ def jobs(tier):
          Job('foreign_key', h_foreign_key, W=40, setup=setup)]
     for kind in ('p2pkh', 'p2wpkh', 'p2sh_p2wpkh'):
         J.append(Job('resign_%s' % kind, h_resign_scripts, W=72, setup=setup_join, params=dict(kind=kind)))
+    for kind in [k for k in c01.KINDS if c01.KINDS[k][0] in ('p2sh_multisig', 'p2sh_p2wsh')]:
+        J.append(Job('threshold_%s' % kind, h_threshold_from_redeemscript, W=72, setup=setup_join, params=dict(kind=kind)))
     for kind in c01.KINDS:
         legacy = c01.KINDS[kind][1] == 'legacy'
         pq = dict(kind=kind, other_kinds=['p2wpkh'] if legacy else ['p2pkh'], max_out=1, outlens=(1, 25))
